@@ -79,6 +79,16 @@ def wait_ping_threads(clock, timeout=20.0):
         time.sleep(0.0003)
 
 
+def partial_frame(r):
+    """The beginning of a further frame arriving in the same segment as a stanza that ends the connection: 1-2 header bytes, or
+    a whole header announcing more than follows."""
+    c = r.random()
+    if c < 0.3:
+        return bytes([0]) if r.random() < 0.5 else bytes([0, r.randint(0, 255)])
+    n = r.randint(20, 400)
+    return bytes([0, n >> 8, n & 255]) + gen.blob(r, r.randint(0, n - 1))
+
+
 class PingRacer(object):
     """Stops the keep-alive thread at its k-th line event inside protocol_iq/layer.py until resumed."""
 
@@ -361,8 +371,12 @@ def one_history(acc, seed, tag, forced=None):
             elif ev == "success":
                 W.server.to_client(A, W.server.success_stanza())
             elif ev == "failure":
+                if r.random() < 0.4:
+                    W.trailing[A] = partial_frame(r)
                 W.server.to_client(A, ("failure", {"reason": "not-authorized"}, [], None))
             elif ev.startswith("stream-error"):
+                if r.random() < 0.4:
+                    W.trailing[A] = partial_frame(r)
                 kind = ev.split(":")[1]
                 kids = [(kind, {}, [], None)] + ([("text", {}, [], b"Replaced by new connection")] if kind == "conflict" else [])
                 W.server.to_client(A, ("stream:error", {}, kids, None))
